@@ -4,59 +4,89 @@ use crate::mval::MVal;
 
 /// Strictly simpler trees, most aggressive first.
 pub fn shrink_tree(v: &MVal) -> Vec<MVal> {
+    // Candidate lists are materialised, so their total size must stay linear in the tree: for wide
+    // containers only a bounded number of positions is tried per round (halving does the bulk of the work).
+    const POS: usize = 24;
+    fn positions(n: usize) -> Vec<usize> {
+        if n <= POS {
+            (0..n).collect()
+        } else {
+            let mut p: Vec<usize> = (0..POS / 2).collect();
+            p.extend(n - POS / 2..n);
+            p
+        }
+    }
     let mut out = vec![];
     match v {
         MVal::Arr(xs) => {
             // hoist a child
-            for x in xs {
-                out.push(x.clone());
+            for i in positions(xs.len()) {
+                out.push(xs[i].clone());
             }
             if !xs.is_empty() {
                 out.push(MVal::Arr(vec![]));
             }
-            // drop halves, then single children
+            // drop halves and quarters, then single children
             if xs.len() > 2 {
-                out.push(MVal::Arr(xs[..xs.len() / 2].to_vec()));
-                out.push(MVal::Arr(xs[xs.len() / 2..].to_vec()));
+                let n = xs.len();
+                out.push(MVal::Arr(xs[..n / 2].to_vec()));
+                out.push(MVal::Arr(xs[n / 2..].to_vec()));
+                if n > 8 {
+                    out.push(MVal::Arr(xs[..n / 4].to_vec()));
+                    out.push(MVal::Arr(xs[n - n / 4..].to_vec()));
+                    out.push(MVal::Arr(xs[n / 4..n - n / 4].to_vec()));
+                }
             }
-            for i in 0..xs.len() {
-                let mut ys = xs.clone();
-                ys.remove(i);
-                out.push(MVal::Arr(ys));
-            }
-            for i in 0..xs.len() {
-                for c in shrink_tree(&xs[i]) {
+            if xs.len() <= 4096 {
+                for i in positions(xs.len()) {
                     let mut ys = xs.clone();
-                    ys[i] = c;
+                    ys.remove(i);
                     out.push(MVal::Arr(ys));
+                }
+                for i in positions(xs.len()) {
+                    for c in shrink_tree(&xs[i]).into_iter().take(POS) {
+                        let mut ys = xs.clone();
+                        ys[i] = c;
+                        out.push(MVal::Arr(ys));
+                    }
                 }
             }
         }
         MVal::Obj(m) => {
-            for x in m.values() {
-                out.push(x.clone());
+            let keys: Vec<&String> = m.keys().collect();
+            let pos = positions(keys.len());
+            for i in &pos {
+                out.push(m[keys[*i]].clone());
             }
             if !m.is_empty() {
                 out.push(MVal::Obj(Default::default()));
             }
-            for k in m.keys() {
-                let mut n = m.clone();
-                n.remove(k);
-                out.push(MVal::Obj(n));
+            if keys.len() > 2 {
+                let n = keys.len();
+                out.push(MVal::Obj(m.iter().take(n / 2).map(|(k, v)| (k.clone(), v.clone())).collect()));
+                out.push(MVal::Obj(m.iter().skip(n / 2).map(|(k, v)| (k.clone(), v.clone())).collect()));
             }
-            for (k, x) in m {
-                for c in shrink_tree(x) {
+            if keys.len() <= 4096 {
+                for i in &pos {
                     let mut n = m.clone();
-                    n.insert(k.clone(), c);
+                    n.remove(keys[*i]);
                     out.push(MVal::Obj(n));
                 }
-                // simpler key
-                for nk in shrink_string(k) {
-                    if !m.contains_key(&nk) {
+                for i in &pos {
+                    let (k, x) = (keys[*i], &m[keys[*i]]);
+                    for c in shrink_tree(x).into_iter().take(POS) {
                         let mut n = m.clone();
-                        let val = n.remove(k).unwrap();
-                        n.insert(nk, val);
+                        n.insert(k.clone(), c);
                         out.push(MVal::Obj(n));
+                    }
+                    // simpler key
+                    for nk in shrink_string(k).into_iter().take(4) {
+                        if !m.contains_key(&nk) {
+                            let mut n = m.clone();
+                            let val = n.remove(k).unwrap();
+                            n.insert(nk, val);
+                            out.push(MVal::Obj(n));
+                        }
                     }
                 }
             }
@@ -101,6 +131,16 @@ pub fn shrink_string(s: &str) -> Vec<String> {
         return out;
     }
     out.push(String::new());
+    if s.len() > 4096 {
+        // huge payloads: halve on a character boundary, nothing finer
+        let mut cut = s.len() / 2;
+        while !s.is_char_boundary(cut) {
+            cut += 1;
+        }
+        out.push(s[..cut].to_string());
+        out.push(s[cut..].to_string());
+        return out;
+    }
     let chars: Vec<char> = s.chars().collect();
     if chars.len() > 1 {
         out.push(chars[..chars.len() / 2].iter().collect());
